@@ -2,6 +2,7 @@ import HdVerif.Proofs.TilingFull
 import HdVerif.Proofs.TilingFraction
 import HdVerif.Proofs.TilingTie
 import HdVerif.Proofs.TilingChannels
+import HdVerif.Proofs.TilingWrite
 /-! # C04  Tiled images reassemble to the exact total pixel matrix
 
 Property theorems only (helper lemmas: `Proofs/TilingStd.lean`, `Proofs/Tiling.lean`, `Proofs/TilingGrid.lean`,
@@ -468,6 +469,51 @@ theorem bridge_tiling_loop_step {α} (z : α) (M : Img α) (R C tr tc ch : Int) 
            | .ok (rows, frs) => .ok (⟨a, b, base, ch⟩ :: rows, t :: frs)) :=
   cutTilesAux_cons_uses_call z M R C tr tc ch co ro offs keep base
 
+/-! ## The write side: which tiles are stored, where, in which order -/
+
+/-- **`stored_frames_exact`** (explicit positions, `tile_pixel_array=True`).  What `Segmentation.__init__` stores is described by a
+list `kept` of (segment, row position, column position) triples:
+* **order** — `kept` is a sub-sequence of segments (outermost, in the order of the descriptions) × grid positions (row-major);
+* **positions and frame numbers** — frame `n` (0-based) is the `n`-th kept pair and is recorded at exactly that position / segment;
+* **content** — it is `get_tile_array` of that segment's matrix at that position (edge tiles zero-padded: `tile_array_content`);
+* **completeness** — without `omit_empty_frames` nothing is left out; a grid tile that is left out is entirely zero in the matrix;
+* **minimality** — with `omit_empty_frames`, unless every tile of every segment is empty (then all are stored), a stored tile
+  is not entirely zero.
+The hand-written loop is tied to the source by `bridge_tiling_loop_step` / `bridge_tile_call_forwarding` (T4c) and the L1 stream
+(stored frames, per-frame positions and segment numbers read back with pydicom). -/
+theorem stored_frames_exact {α} [BEq α] [LawfulBEq α] (z : α) (Ms : List (Int × Img α)) (R C tr tc : Int)
+    (hr : 1 ≤ tr) (hc : 1 ≤ tc) (hR : 1 ≤ R) (hC : 1 ≤ C) (hnd : (Ms.map Prod.fst).Nodup) (omitEmpty : Bool)
+    (rows : List LutRow) (frames : List (Img α)) (h : tiledSegTable z Ms R C tr tc false omitEmpty = .ok (rows, frames)) :
+    ∃ kept : List (Int × Int × Int),
+      kept.Sublist (Ms.flatMap (fun m => (gridPos R C tr tc).map (fun p => (m.1, p.1, p.2)))) ∧
+      rows = rowsOfKept kept 0 ∧ frames.length = kept.length ∧
+      (∀ (n : Nat) (c rp cp : Int), kept[n]? = some (c, rp, cp) →
+        ∃ M t, (c, M) ∈ Ms ∧ frames[n]? = some t ∧ getTileArray z M R C rp cp tr tc = .ok t) ∧
+      (omitEmpty = false → kept = Ms.flatMap (fun m => (gridPos R C tr tc).map (fun p => (m.1, p.1, p.2)))) ∧
+      (∀ c M p, (c, M) ∈ Ms → p ∈ gridPos R C tr tc → (c, p.1, p.2) ∉ kept →
+        ∃ t, getTileArray z M R C p.1 p.2 tr tc = .ok t ∧ imgAllZero z t tr tc = true) ∧
+      ((∀ m ∈ Ms, ∀ p ∈ gridPos R C tr tc, ∃ t, getTileArray z m.2 R C p.1 p.2 tr tc = .ok t ∧ imgAllZero z t tr tc = true) ∨
+        omitEmpty = false ∨
+        (∀ c M rp cp, (c, M) ∈ Ms → (c, rp, cp) ∈ kept →
+          ∃ t, getTileArray z M R C rp cp tr tc = .ok t ∧ imgAllZero z t tr tc = false)) :=
+  tiledSegTable_stored z Ms R C tr tc hr hc hR hC hnd omitEmpty rows frames h
+
+/-- **`stored_frames_tiled_full`**: with TILED_FULL the constructor stores every tile of every segment — segments outermost, tiles
+row-major — and the table a reader derives from frame order alone puts frame `n` at the `n`-th (segment, grid position) pair. -/
+theorem stored_frames_tiled_full {α} [BEq α] [LawfulBEq α] (z : α) (Ms : List (Int × Img α)) (R C tr tc : Int)
+    (hr : 1 ≤ tr) (hc : 1 ≤ tc) (hR : 1 ≤ R) (hC : 1 ≤ C) (hnd : (Ms.map Prod.fst).Nodup) :
+    ∃ rows frames, tiledSegTable z Ms R C tr tc true false = .ok (rows, frames) ∧
+      rows = rowsOfKept (Ms.flatMap (fun m => (gridPos R C tr tc).map (fun p => (m.1, p.1, p.2)))) 0 ∧
+      frames.length = (Ms.flatMap (fun m => (gridPos R C tr tc).map (fun p => (m.1, p.1, p.2)))).length ∧
+      ∀ (n : Nat) (c rp cp : Int), (Ms.flatMap (fun m => (gridPos R C tr tc).map (fun p => (m.1, p.1, p.2))))[n]? = some (c, rp, cp) →
+        ∃ M t, (c, M) ∈ Ms ∧ frames[n]? = some t ∧ getTileArray z M R C rp cp tr tc = .ok t := by
+  obtain ⟨rows, frames, h, _, _⟩ := tiledSegTable_sparse_spec z Ms R C tr tc hr hc hR hC hnd false
+  obtain ⟨kept, _, h2, h3, h4, h5, _, _⟩ := tiledSegTable_stored z Ms R C tr tc hr hc hR hC hnd false rows frames h
+  have hk := h5 rfl
+  subst hk
+  exact ⟨rows, frames, by rw [tiledSegTable_full_eq_sparse z Ms R C tr tc hr hc hR hC]; exact h, h2, h3, h4⟩
+
+
 /-! ## Several segments at once, and histories of reads on one object
 
 `Segmentation.get_total_pixel_matrix(segment_numbers=…)` joins the frame table with a temporary channel table (one row per requested
@@ -683,5 +729,13 @@ example : runOps tempTableSetup [(0, 2)] (some [(1, 1), (2, 2), (3, 3)]) = (some
 segment 2 at tile (1, 1) is joined twice, once for the stale output value 2 and once for the requested channel 0 -/
 example : joinRows [⟨1, 1, 0, 2⟩] [(1, 1), (2, 2), (0, 2)] = [(⟨1, 1, 0, 2⟩, 2), (⟨1, 1, 0, 2⟩, 0)] ∧
     joinRows [⟨1, 1, 0, 2⟩] [(0, 2)] = [(⟨1, 1, 0, 2⟩, 0)] := by decide
+
+/-- `stored_frames_exact` is about tables that exist: the constructor model accepts the 5 × 4 matrix in 2 × 3 tiles with a second, empty
+segment and `omit_empty_frames`, and stores six frames (all tiles of segment 1, none of segment 2) -/
+example : ∃ rows frames, tiledSegTable (0 : Int) [(1, exM), (2, fun _ _ => 0)] 5 4 2 3 false true = .ok (rows, frames) := by
+  obtain ⟨rows, frames, h, _⟩ := tiledSegTable_sparse_spec (0 : Int) [(1, exM), (2, fun _ _ => 0)] 5 4 2 3 (by decide) (by decide)
+    (by decide) (by decide) (by decide) true
+  exact ⟨rows, frames, h⟩
+example : rowsOfKept [(1, 1, 1), (1, 1, 4), (2, 3, 1)] 0 = [⟨1, 1, 0, 1⟩, ⟨1, 4, 1, 1⟩, ⟨3, 1, 2, 2⟩] := by decide
 
 end HdVerif.Examples.C04
